@@ -210,12 +210,161 @@ Proof.
   destruct d; reflexivity.
 Qed.
 
+(* ---------- NBT: the skipper reads a prefix and ignores what follows ---------- *)
+Lemma drop_n_app k bs r x : drop_n k bs = Some r -> drop_n k (bs ++ x) = Some (r ++ x).
+Proof.
+  unfold drop_n. destruct (Nat.leb k (length bs)) eqn:E; [|discriminate]. intro H. inversion H; subst.
+  apply Nat.leb_le in E. rewrite app_length.
+  replace (Nat.leb k (length bs + length x)) with true by (symmetry; apply Nat.leb_le; lia).
+  rewrite skipn_app. replace (k - length bs)%nat with 0%nat by lia. reflexivity.
+Qed.
+Lemma drop_n_len k bs r : drop_n k bs = Some r -> (length r + k = length bs)%nat.
+Proof.
+  unfold drop_n. destruct (Nat.leb k (length bs)) eqn:E; [|discriminate]. intro H. inversion H; subst.
+  apply Nat.leb_le in E. rewrite skipn_length. lia.
+Qed.
+
+Lemma be_i32_app bs n r x : be_i32 bs = Some (n, r) -> be_i32 (bs ++ x) = Some (n, r ++ x).
+Proof.
+  unfold be_i32. destruct (Nat.leb 4 (length bs)) eqn:E; [|discriminate]. intro H. injection H as <- <-.
+  apply Nat.leb_le in E. rewrite app_length.
+  replace (Nat.leb 4 (length bs + length x)) with true by (symmetry; apply Nat.leb_le; lia).
+  rewrite firstn_app, skipn_app. replace (4 - length bs)%nat with 0%nat by lia. cbn [firstn skipn]. rewrite app_nil_r. reflexivity.
+Qed.
+Lemma be_i32_len bs n r : be_i32 bs = Some (n, r) -> (length r + 4 = length bs)%nat.
+Proof.
+  unfold be_i32. destruct (Nat.leb 4 (length bs)) eqn:E; [|discriminate].
+  remember (skipn 4 bs) as sk eqn:Hsk. intro H. injection H as _ <-.
+  apply Nat.leb_le in E. rewrite Hsk, skipn_length. lia.
+Qed.
+Lemma be_u16_app bs n r x : be_u16 bs = Some (n, r) -> be_u16 (bs ++ x) = Some (n, r ++ x).
+Proof.
+  unfold be_u16. destruct (Nat.leb 2 (length bs)) eqn:E; [|discriminate]. intro H. injection H as <- <-.
+  apply Nat.leb_le in E. rewrite app_length.
+  replace (Nat.leb 2 (length bs + length x)) with true by (symmetry; apply Nat.leb_le; lia).
+  rewrite firstn_app, skipn_app. replace (2 - length bs)%nat with 0%nat by lia. cbn [firstn skipn]. rewrite app_nil_r. reflexivity.
+Qed.
+Lemma be_u16_len bs n r : be_u16 bs = Some (n, r) -> (length r + 2 = length bs)%nat.
+Proof.
+  unfold be_u16. destruct (Nat.leb 2 (length bs)) eqn:E; [|discriminate].
+  remember (skipn 2 bs) as sk eqn:Hsk. intro H. injection H as _ <-.
+  apply Nat.leb_le in E. rewrite Hsk, skipn_length. lia.
+Qed.
+
+Lemma nbt_skip_app k st bs s r x : nbt_skip k st bs = Some (s, r) -> nbt_skip k st (bs ++ x) = Some (s, r ++ x).
+Proof.
+  unfold nbt_skip. destruct (drop_n k bs) as [r0|] eqn:E; [|discriminate]. intro H. inversion H; subst.
+  rewrite (drop_n_app _ _ _ x E). reflexivity.
+Qed.
+Lemma nbt_skip_len k st bs s r : nbt_skip k st bs = Some (s, r) -> (length r + k = length bs)%nat.
+Proof.
+  unfold nbt_skip. destruct (drop_n k bs) as [r0|] eqn:E; [|discriminate]. intro H. inversion H; subst.
+  apply drop_n_len in E. exact E.
+Qed.
+Lemma nbt_arr_app w st bs s r x : nbt_arr w st bs = Some (s, r) -> nbt_arr w st (bs ++ x) = Some (s, r ++ x).
+Proof.
+  unfold nbt_arr. destruct (be_i32 bs) as [[n r0]|] eqn:E; [|discriminate]. rewrite (be_i32_app _ _ _ x E).
+  destruct (n <? 0); [discriminate|]. apply nbt_skip_app.
+Qed.
+Lemma nbt_arr_len w st bs s r : nbt_arr w st bs = Some (s, r) -> (length r + 4 <= length bs)%nat.
+Proof.
+  unfold nbt_arr. destruct (be_i32 bs) as [[n r0]|] eqn:E; [|discriminate]. apply be_i32_len in E.
+  destruct (n <? 0); [discriminate|]. intro H. apply nbt_skip_len in H. lia.
+Qed.
+Lemma nbt_str_app st bs s r x : nbt_str st bs = Some (s, r) -> nbt_str st (bs ++ x) = Some (s, r ++ x).
+Proof.
+  unfold nbt_str. destruct (be_u16 bs) as [[n r0]|] eqn:E; [|discriminate]. rewrite (be_u16_app _ _ _ x E). apply nbt_skip_app.
+Qed.
+Lemma nbt_str_len st bs s r : nbt_str st bs = Some (s, r) -> (length r + 2 <= length bs)%nat.
+Proof.
+  unfold nbt_str. destruct (be_u16 bs) as [[n r0]|] eqn:E; [|discriminate]. apply be_u16_len in E.
+  intro H. apply nbt_skip_len in H. lia.
+Qed.
+Lemma nbt_list_app st bs s r x : nbt_list st bs = Some (s, r) -> nbt_list st (bs ++ x) = Some (s, r ++ x).
+Proof.
+  unfold nbt_list. destruct bs as [|et r0]; [discriminate|]. cbn [app].
+  destruct (be_i32 r0) as [[n r1]|] eqn:E; [|discriminate]. rewrite (be_i32_app _ _ _ x E).
+  destruct (n <=? 0); [intro H; inversion H; subst; reflexivity|].
+  destruct (et =? 0)%N; [discriminate|]. intro H; inversion H; subst; reflexivity.
+Qed.
+Lemma nbt_list_len st bs s r : nbt_list st bs = Some (s, r) -> (length r + 5 = length bs)%nat.
+Proof.
+  unfold nbt_list. destruct bs as [|et r0]; [discriminate|].
+  destruct (be_i32 r0) as [[n r1]|] eqn:E; [|discriminate]. apply be_i32_len in E.
+  destruct (n <=? 0); [intro H; inversion H; subst; cbn [length]; lia|].
+  destruct (et =? 0)%N; [discriminate|]. intro H; inversion H; subst. cbn [length]. lia.
+Qed.
+
+Lemma start_val_app t st bs s r x : start_val t st bs = Some (s, r) -> start_val t st (bs ++ x) = Some (s, r ++ x).
+Proof.
+  unfold start_val.
+  repeat match goal with |- context [if (t =? ?k)%N then _ else _] => destruct (t =? k)%N end;
+    try apply nbt_skip_app; try apply nbt_arr_app; try apply nbt_str_app; try apply nbt_list_app; try discriminate.
+  intro H. inversion H; subst. reflexivity.
+Qed.
+Lemma start_val_len t st bs s r : start_val t st bs = Some (s, r) -> (length r <= length bs)%nat.
+Proof.
+  unfold start_val.
+  repeat match goal with |- context [if (t =? ?k)%N then _ else _] => destruct (t =? k)%N end; intro H;
+    try (apply nbt_skip_len in H; lia); try (apply nbt_arr_len in H; lia); try (apply nbt_str_len in H; lia);
+    try (apply nbt_list_len in H; lia); try discriminate.
+  inversion H; subst. lia.
+Qed.
+
+Lemma nbt_run_app f : forall st bs r x f', (f <= f')%nat -> nbt_run f st bs = Some r -> nbt_run f' st (bs ++ x) = Some (r ++ x).
+Proof.
+  induction f as [|f IH]; intros st bs r x f' Hf H; [discriminate|].
+  destruct f' as [|f']; [lia|]. cbn [nbt_run] in *.
+  destruct st as [|[et n|] st'].
+  - inversion H; subst. reflexivity.
+  - destruct (n =? 0)%N; [apply IH; [lia | exact H]|].
+    destruct (start_val et (NList et (n - 1) :: st') bs) as [[s2 r2]|] eqn:E; [|discriminate].
+    rewrite (start_val_app _ _ _ _ _ x E). apply IH; [lia | exact H].
+  - destruct bs as [|t r0]; [discriminate|]. cbn [app].
+    destruct (t =? 0)%N; [apply IH; [lia | exact H]|].
+    destruct (nbt_str st' r0) as [[s1 r2]|] eqn:E1; [|discriminate]. rewrite (nbt_str_app _ _ _ _ x E1).
+    destruct (start_val t (NComp :: st') r2) as [[s2 r3]|] eqn:E2; [|discriminate].
+    rewrite (start_val_app _ _ _ _ _ x E2). apply IH; [lia | exact H].
+Qed.
+
+Lemma nbt_run_len f : forall st bs r, nbt_run f st bs = Some r -> (length r <= length bs)%nat.
+Proof.
+  induction f as [|f IH]; intros st bs r H; [discriminate|]. cbn [nbt_run] in H.
+  destruct st as [|[et n|] st'].
+  - inversion H; subst. lia.
+  - destruct (n =? 0)%N; [apply IH in H; exact H|].
+    destruct (start_val et (NList et (n - 1) :: st') bs) as [[s2 r2]|] eqn:E; [|discriminate].
+    apply start_val_len in E. apply IH in H. lia.
+  - destruct bs as [|t r0]; [discriminate|].
+    destruct (t =? 0)%N; [apply IH in H; cbn [length]; lia|].
+    destruct (nbt_str st' r0) as [[s1 r2]|] eqn:E1; [|discriminate]. apply nbt_str_len in E1.
+    destruct (start_val t (NComp :: st') r2) as [[s2 r3]|] eqn:E2; [|discriminate].
+    apply start_val_len in E2. apply IH in H. cbn [length]. lia.
+Qed.
+
+Lemma nbt_rest_app s x : nbt_rest s = Some [] -> nbt_rest (s ++ x) = Some x.
+Proof.
+  unfold nbt_rest. destruct s as [|t r]; [discriminate|]. cbn [app].
+  destruct (t =? 0)%N; [intro H; inversion H; subst; reflexivity|].
+  destruct (start_val t [] r) as [[st r']|] eqn:E; [|discriminate]. rewrite (start_val_app _ _ _ _ _ x E).
+  intro H. apply (nbt_run_app _ _ _ _ x (3 * length (t :: r ++ x) + 3)) in H; [exact H|].
+  cbn [length]. rewrite app_length. lia.
+Qed.
+
+Lemma nbt_rest_len bs r : nbt_rest bs = Some r -> (length r + 1 <= length bs)%nat.
+Proof.
+  unfold nbt_rest. destruct bs as [|t r0]; [discriminate|].
+  destruct (t =? 0)%N; [intro H; inversion H; subst; cbn [length]; lia|].
+  destruct (start_val t [] r0) as [[st r']|] eqn:E; [|discriminate]. apply start_val_len in E.
+  intro H. apply nbt_run_len in H. cbn [length]. lia.
+Qed.
+
 (* ---------- the record ---------- *)
 Lemma lp_prim_rt : forall p a rest, lp_dom p a ->
   exists bs, lp_enc p a = Ok bs /\ lp_dec p (bs ++ rest) = Ok (a, rest).
 Proof.
   intros p a rest D. unfold lp_dom in D.
-  destruct p as [| | w sg | max | max | | n | | | d |]; destruct a as [z | b | s]; cbn [lp_domb] in D; try discriminate D.
+  destruct p as [| | w sg | max | max | | n | | | d | |]; destruct a as [z | b | s]; cbn [lp_domb] in D; try discriminate D.
   - (* PVarInt *)
     apply andb_true_iff in D as [D1 D2]. exists (enc_varint z). split; [reflexivity|].
     cbn [lp_dec]. rewrite dec_enc_varint by lia. reflexivity.
@@ -280,13 +429,20 @@ Proof.
     + cbn [lp_enc]. rewrite D2, D3. reflexivity.
     + cbn [lp_dec]. rewrite <- app_assoc, dec_lenpref_rt by (unfold default_max in *; lia).
       rewrite D2, D3. reflexivity.
+  - (* PNbt *)
+    apply andb_true_iff in D as [D1 D2].
+    destruct (nbt_rest s) as [[|? ?]|] eqn:E; try discriminate D2.
+    exists s. split; [cbn [lp_enc]; rewrite E; reflexivity|].
+    cbn [lp_dec]. rewrite (nbt_rest_app s rest E). rewrite app_length.
+    replace (length s + length rest - length rest)%nat with (length s) by lia.
+    rewrite firstn_app, Nat.sub_diag, firstn_all. cbn [firstn]. rewrite app_nil_r. reflexivity.
 Qed.
 
 Lemma lp_prim_min : forall p bs a rest, lp_dec p bs = Ok (a, rest) ->
   (length rest + N.to_nat (lp_min p) <= length bs)%nat.
 Proof.
   intros p bs a rest H.
-  destruct p as [| | w sg | max | max | | n | | | d |]; cbn [lp_dec lp_min] in *.
+  destruct p as [| | w sg | max | max | | n | | | d | |]; cbn [lp_dec lp_min] in *.
   - destruct (dec_varint bs) as [[z r]|e] eqn:E; [|discriminate]. inversion H; subst. apply dec_varint_min in E. lia.
   - destruct bs as [|b r]; [discriminate|]. inversion H; subst. cbn [length]. lia.
   - destruct (take_n w bs) as [[b r]|e] eqn:E; [|discriminate]. inversion H; subst. apply take_n_len in E. lia.
@@ -310,6 +466,7 @@ Proof.
     destruct (parse_uuid_text s); [|discriminate]. inversion H; subst. lia.
   - destruct (dec_lenpref _ bs) as [[s r]|e] eqn:E; [|discriminate]. apply dec_lenpref_min in E.
     destruct (valid_key (canon_key s)); [|discriminate]. inversion H; subst. lia.
+  - destruct (nbt_rest bs) as [r|] eqn:E; [|discriminate]. inversion H; subst. apply nbt_rest_len in E. lia.
 Qed.
 
 Lemma lp_prim_eqb : forall p q a, lprim_eqb p q = true -> lp_enc p a = lp_enc q a.
